@@ -150,7 +150,7 @@ def rand_seq(rng, nops, kinds=("list", "array", "poollist"), selfw=1.0):
             if n and 2 * n <= limit + 2:
                 selfc += ["appendself"] * 2
             if n and grow:
-                selfc += ["appendown"] * 4 + ["resizeown"] * 3
+                selfc += ["appendown"] * 4 + ["resizeown"] * 3 + ["appendrange"] * 3
         else:
             cands += ["append"] * 7 if grow else []
             cands += ["rmat"] * 3 + ["rmref"] * 3 + ["rmfront", "rmback", "clear", "swap", "swap"]
@@ -222,6 +222,9 @@ def rand_seq(rng, nops, kinds=("list", "array", "poollist"), selfw=1.0):
             ops.append("appendown %d 0 %d" % (i, idx)); q.append(q[idx])
         elif op == "insertown":
             ops.append("insertown %d %d %d" % (i, idx, pos)); q.insert(pos, q[idx])
+        elif op == "appendrange":
+            a0 = rng.randint(0, n); cnt = rng.randint(0, n - a0)
+            ops.append("appendrange %d %d %d" % (i, a0, cnt)); C[i] = q + q[a0:a0 + cnt]
         elif op == "resizeown":
             m = rng.choice([n, n + 1, n + 2, 4, 8, 9, max(0, n - 1)])
             ops.append("resizeown %d %d %d" % (i, idx, m)); C[i] = (q + [q[idx]] * m)[:m] if m > n else q[:m]
@@ -552,7 +555,7 @@ def stages(ctx, prop, bins):
     # direction A, Layer 1: the reference models contain every self-argument form
     st.append(lambda: layer1_graph(ctx, prop, "RefSeq", "RefSeq_c04q.cfg" if q else "RefSeq_c04.cfg", "seq", bseq, "l1seq",
                                    want={"swapself", "assignself", "appendself", "prependself", "insertself", "appendown",
-                                         "insertown", "resizeown", "copy", "assign", "swap", "clear"}))
+                                         "insertown", "resizeown", "appendrange", "copy", "assign", "swap", "clear"}))
     st.append(lambda: layer1_graph(ctx, prop, "OrderedTable", "OrderedTable_c04q.cfg" if q else "OrderedTable_small.cfg", "table",
                                    btab, "l1table", want={"swapself", "assignself", "appendself", "rmself", "appendown", "rmkeyown",
                                                           "copy", "assign", "swap", "clear"}))
@@ -595,7 +598,7 @@ def stages(ctx, prop, bins):
 def vacuity(ctx, prop):
     """the random histories must really contain every self-argument operation / every class"""
     need = {"random_seq": {"swapself", "assignself", "appendself", "prependself", "insertself", "appendown", "insertown",
-                           "copy", "assign", "clear", "fini", "swap", "sort"} | ({"resizeown"} if prop == "C04" else set()),
+                           "copy", "assign", "clear", "fini", "swap", "sort"} | ({"resizeown", "appendrange"} if prop == "C04" else set()),
             "random_table": {"swapself", "assignself", "appendself", "rmself", "appendown", "rmkeyown", "copy", "assign", "clear",
                              "fini", "swap", "rmref"},
             "random_map": {"assignself", "bulkself", "insertref", "insertrefh", "copy", "assign", "clear", "fini", "bulk"}}
